@@ -20,6 +20,15 @@ from checks.worldb import (WorldB, APPS, draw_sched_b, draw_knobs_b, LOCAL_HOST,
 TAG_CODE = 99999
 
 
+def _keyhex(key):
+    # the registry key is the library's business (bytes today); the observer must not depend on its type
+    if isinstance(key, (bytes, bytearray)):
+        return bytes(key).hex()
+    if isinstance(key, int):
+        return "%08x" % key
+    return repr(key)
+
+
 class LoggingDict(dict):
     """Observes registrations in Worker.pending_answers (harness-owned
     instance attribute; the library only uses dict methods on it)."""
@@ -32,11 +41,11 @@ class LoggingDict(dict):
         dict.update(self, *a, **k)
         for d in a:
             for key in d:
-                self._wb.hist("registered", hbh=key.hex())
+                self._wb.hist("registered", hbh=_keyhex(key))
 
     def __setitem__(self, key, v):
         dict.__setitem__(self, key, v)
-        self._wb.hist("registered", hbh=key.hex())
+        self._wb.hist("registered", hbh=_keyhex(key))
 
 
 class C14(Check):
@@ -114,7 +123,8 @@ class C14(Check):
                 sched["policy"] = "line"
                 sched["p_line"] = rng.choice([0.02, 0.1, 0.3])
         return {"callers": callers, "apps_per_worker": apps_per_worker, "unsolicited": unsolicited,
-                "sched": sched, "knobs": knobs, "stalls": stalls, "horizon": 30.0}
+                "sched": sched, "knobs": knobs, "stalls": stalls, "horizon": 30.0,
+                "id_boundary": rng.random() < 0.3}
 
     def shrink(self, scn):
         import copy
